@@ -214,6 +214,12 @@ func genC15Case(r *rand.Rand, kind string) c15Case {
 	if unionAppend {
 		last = append(last, &snode{kind: "predefStruct", name: g.vname(), sname: ".Reward"})
 	}
+	// appended TYPE sheet named like a LOCAL type of the existing sheet (a member-less struct `{Skill}` nested in the
+	// sheet's message): the existing field keeps its own nested type
+	localAppend := kind == "sheets" && !wideTransposed && !unionAppend && r.Intn(2) == 0
+	if localAppend {
+		last = append(last, &snode{kind: "emptyStruct", name: "Skill", sname: "Skill"})
+	}
 	gs := g.sheet("HeroConf", nf, 2+r.Intn(5), last...)
 	v1 := bookSpec{Name: "Fuzz", Sheets: []sheetSpec{gs.spec}}
 	rows2 := make([][]string, len(gs.spec.Rows))
@@ -286,6 +292,9 @@ func genC15Case(r *rand.Rand, kind string) c15Case {
 		if unionAppend {
 			v2.Sheets = append(v2.Sheets, sheetSpec{Name: "Bonus", Meta: map[string]string{"Mode": "MODE_UNION_TYPE"},
 				Rows: [][]string{{"Name", "Alias", "Field1", "Field2"}, {"Reward", "BonusReward", "Gold\nint32", "Gem\nint32"}, {"Other", "BonusOther", "Tip\nstring", ""}}})
+		} else if localAppend {
+			v2.Sheets = append(v2.Sheets, sheetSpec{Name: "Skill", Meta: map[string]string{"Mode": "MODE_STRUCT_TYPE"},
+				Rows: [][]string{{"Name", "Type"}, {"ID", "uint32"}, {"Damage", "int32"}}})
 		} else {
 			gs2 := g.sheet("ZoneConf", 1+r.Intn(3), 1+r.Intn(3))
 			v2.Sheets = append(v2.Sheets, gs2.spec)
